@@ -42,6 +42,11 @@ def capture(opti, probe_seed, with_fun=False):
         rec["f"].append(float(f))
         rec["g"].append(_arr(g))
         rec["lbg"], rec["ubg"] = _arr(lbg), _arr(ubg)
+    try:  # decision-variable entries ever created on this Opti (Opti drops unused ones from the NLP)
+        adv = opti.advanced
+        rec["nx_created"] = int(sum(sv.numel() for sv in adv.symvar() if adv.get_meta(sv).type == ca.OPTI_VAR))
+    except Exception:
+        rec["nx_created"] = None
     rec["solver"] = getattr(opti, "_rsim_solver", None)
     rec["has_callback"] = bool(getattr(opti, "_rsim_callback", False))
     if with_fun:
@@ -62,6 +67,23 @@ def _close(a, b, rtol=1e-9, atol=1e-12):
     return bool(np.all(ok | both_nan | same_inf))
 
 
+COND_LIMIT = 1e6
+
+
+def well_conditioned(r1, r2):
+    """indices of evaluation points (0 = x0, 1.. = probes) at which both records stay moderate.  Generated
+    dynamics can blow up at a random probe point (values ~1e30); there rounding differences between two
+    expression graphs of the same function are amplified beyond any tolerance, so such points are not judged."""
+    ok = []
+    for i in range(min(len(r1["f"]), len(r2["f"]))):
+        vals = [np.abs(np.asarray(r1["g"][i], dtype=float)), np.abs(np.asarray(r2["g"][i], dtype=float)),
+                np.abs(np.asarray([r1["f"][i], r2["f"][i]], dtype=float))]
+        m = max([float(np.nanmax(v)) if v.size else 0.0 for v in vals])
+        if np.isfinite(m) and m <= COND_LIMIT:
+            ok.append(i)
+    return ok
+
+
 def compare(r1, r2, fields=("size", "f", "g", "bounds", "x0", "p", "solver")):
     """-> None if equal, else (class, detail) for the first differing field."""
     if "size" in fields:
@@ -70,12 +92,15 @@ def compare(r1, r2, fields=("size", "f", "g", "bounds", "x0", "p", "solver")):
                 return ("size", "%s: %d vs %d" % (k, r1[k], r2[k]))
     if "p" in fields and not _close(r1["p"], r2["p"]):
         return ("p", "p: %s vs %s" % (np.round(r1["p"], 6).tolist(), np.round(r2["p"], 6).tolist()))
-    if "f" in fields and not _close(r1["f"], r2["f"]):
-        return ("f", "f: %s vs %s" % (r1["f"], r2["f"]))
-    if "g" in fields:
-        for i, (a, b) in enumerate(zip(r1["g"], r2["g"])):
-            if not _close(a, b):
-                return ("g", "g at probe %d differs: first idx %s" % (i, _first_diff(a, b)))
+    if ("f" in fields or "g" in fields) and r1["nx"] == r2["nx"] and r1["ng"] == r2["ng"]:
+        pts = well_conditioned(r1, r2)
+        if "f" in fields and not _close([r1["f"][i] for i in pts], [r2["f"][i] for i in pts]):
+            return ("f", "f: %s vs %s" % (r1["f"], r2["f"]))
+        if "g" in fields:
+            for i in pts:
+                a, b = r1["g"][i], r2["g"][i]
+                if not _close(a, b):
+                    return ("g", "g at probe %d differs: first idx %s" % (i, _first_diff(a, b)))
     if "bounds" in fields:
         if not _close(r1["lbg"], r2["lbg"]):
             return ("bounds", "lbg differs at %s" % _first_diff(r1["lbg"], r2["lbg"]))
